@@ -477,6 +477,15 @@ def _value_for(level, key, state, pad):
         return pad[0] + base + pad[1]
     if state == "padded-nondefault":
         return pad[0] + NONDEFAULT.get(key, "9.000=9") + pad[1]
+    if state == "near-default" and dflt:
+        # differs from the default only slightly: blanks inside it, one character more or less, other letter case
+        i = PADS.index(pad) % 5 if pad in PADS else 0
+        eq = dflt.find("=")
+        cut = eq if eq > 0 else 1
+        v = [dflt[:cut] + " " + dflt[cut:], dflt[: cut + 1] + " " + dflt[cut + 1 :], dflt + "0", dflt[:-1], dflt.swapcase()][i]
+        if v.strip() != dflt:
+            return v
+        return dflt + "0"
     return NONDEFAULT.get(key, "9.000=9")
 
 
@@ -517,7 +526,7 @@ def _free_pairs():
     )
 
 
-STATES = ["absent", "absent", "keep", "keep", "empty", "default", "default", "alt-default", "padded", "padded", "nondefault", "padded-nondefault", "keyonly"]
+STATES = ["absent", "absent", "keep", "keep", "empty", "default", "default", "alt-default", "padded", "padded", "nondefault", "padded-nondefault", "keyonly", "near-default"]
 
 
 @st.composite
